@@ -58,6 +58,16 @@ func guard(c *fw.Ctx, entry, locus, mut string, input []byte, f func()) {
 		c.Violation("panic:"+fw.PanicClass(pan)+"@"+site+"|"+entry+"|"+locus+"|"+mut, fmt.Sprintf("%s on %s: panic %v at %s; input %x (%s)", entry, locus, pan, site, clipB(input), mut), map[string]interface{}{"entry": entry, "target": locus, "mutation": mut, "input_hex": fmt.Sprintf("%x", clipB(input)), "input_len": len(input)})
 		return
 	}
+	// a real runaway allocation is a function of the input and repeats; what the meter shows once can include
+	// allocation that belongs to nobody's call (pool refills after a collection, runtime bookkeeping): an excess is
+	// believed only if the call exceeds the bound three times in a row (the smallest reading counts)
+	for r := 0; r < 2 && delta > allocBound(len(input)); r++ {
+		before = allocated()
+		run(f)
+		if d := allocated() - before; d < delta {
+			delta = d
+		}
+	}
 	if delta > allocBound(len(input)) {
 		c.Violation("runaway-allocation|"+entry+"|"+locus+"|"+mut, fmt.Sprintf("%s on %s allocated %d bytes for a %d-byte input (bound %d); input %x (%s)", entry, locus, delta, len(input), allocBound(len(input)), clipB(input), mut), map[string]interface{}{"entry": entry, "target": locus, "mutation": mut, "input_hex": fmt.Sprintf("%x", clipB(input)), "allocated": delta})
 	}
@@ -185,6 +195,13 @@ func zeroSizeItems(chain string) bool {
 }
 
 func (cc *codecCase) offer(c *fw.Ctx, mut string, input []byte) {
+	if !zeroSizeItems(cc.node.Chain) && ref.HasZeroSizeArray(cc.node.Schema) && ref.HasLargeVarint(input, 1<<12) {
+		// an array of zero-width items BELOW the top of the schema: which bytes a reader takes for its count depends
+		// on how it treats everything before it (the readers differ on what they reject), so every input that holds
+		// a large varint anywhere is withheld for these schemas — coarser than needed, never wrong
+		c.Count("inputs_with_a_large_varint_for_schemas_with_nested_zero_size_arrays_not_offered", 1)
+		return
+	}
 	if (zeroSizeItems(cc.node.Chain) && zeroSizeFlood(input)) || (ref.HasZeroSizeArray(cc.node.Schema) && ref.ZeroSizeFlood(cc.node.Schema, input, 1<<12)) {
 		c.Count("zero_size_item_floods_not_offered", 1)
 		return
@@ -963,6 +980,20 @@ func scaleTasks(tier string) []task {
 							c.Violation("valid-input-refused|ReadFile|allocation-scaling|"+where, fmt.Sprintf("err=%v records=%d — %s", rerr, records, desc), det)
 							break
 						}
+						for r := 0; r < 2 && prev > 0 && delta > 8*prev; r++ {
+							// believed only when it repeats (see guard)
+							runtime.GC()
+							before = allocated()
+							run(func() {
+								avro.ReadFile(&filedrv.Reader{Data: data, Mode: mode * 2}, blobT{}, func(val unsafe.Pointer, rb *avro.ResourceBank) error {
+									rb.Close()
+									return nil
+								})
+							})
+							if d := allocated() - before; d < delta {
+								delta = d
+							}
+						}
 						if prev > 0 && delta > 8*prev {
 							c.Violation("runaway-allocation|ReadFile|allocation-scaling|"+where, fmt.Sprintf("%d bytes allocated for %d input bytes, %d for %d: a fourfold input costs %.1f times the allocation (linear growth would cost 4) — %s", prev, prevN, delta, n, float64(delta)/float64(prev), desc), det)
 							break
@@ -1120,7 +1151,7 @@ func init() {
 			return "five entry points × three input families, all enumerated. Codec.Read and Codec.Skip of ~50 codecs (every schema of depth<=1 + selected depth-2 shapes; depth<=2 in thorough): every byte string of length<=2 over all 256 values and of length 3..5 (6 thorough) over {00,01,02,03,7f,80,fe,ff}; for every valid encoding (default and fully size-prefixed form) every annotated length/count/block-size/selector replaced by each of 20 values {0,±1,±2,true±1,-true,2^31-1,2^31,2^32,±2^40,2^62,MaxInt64,MinInt64,MinInt64+1,10-byte max varint,11-byte overflowing varint,truncated varint}, every truncation, every byte replaced by {00,7f,80,ff,b^01,b^80} (thorough: all pairs of field mutations). ReadFile: the same three mutation kinds on every framing varint (metadata counts/lengths, block count, block size) and byte of 36 reference-written files, record-level mutations inside blocks, structural cases (codec entry absent/unknown, raw blocks of 0..6 bytes under every codec, 21 malformed embedded schemas, raw strings as file / after magic / after a valid header). SchemaFromString followed by Schema.Codec (decoder construction) and a decode: truncations, token deletions/duplications, character and attribute-value replacements, every type name renamed to every other, token strings up to length 4. Timestamp text: raw strings and single/double character mutations of 6 valid timestamps. Oracle per call: no panic, no worker death, no watchdog expiry, heap allocated (runtime/metrics) <= 1 MiB + 1024×len(input); non-trivial = every distinct mutated input"
 		},
 		Assumptions: []string{
-			"also: one file whose single block or single metadata value holds 1, 4 and 16 MiB — allocation may grow at most eightfold per fourfold input, whatever the constant (linear 4, quadratic 16); valid files whose records take 1 to 5000 items from banks that are closed and handed back at once; zero-size-item floods are recognised by a schema-directed walk (an array of zero-width items at ANY depth of the schema)",
+			"also: one file whose single block or single metadata value holds 1, 4 and 16 MiB — allocation may grow at most eightfold per fourfold input, whatever the constant (linear 4, quadratic 16); valid files whose records take 1 to 5000 items from banks that are closed and handed back at once; zero-size-item floods are recognised by a schema-directed walk, and for schemas whose zero-width-item array sits below the top every input holding a varint above 4096 anywhere is withheld (counted)",
 			"allocation bound 1 MiB + 1024 × input length: legitimate in-memory/wire ratios here are below ~40 (deflate's theoretical 1032:1 cannot be reached by the enumerated inputs)",
 			"'never hangs' is observed by the worker watchdog (no progress for 120 s while executions take microseconds)",
 			"item schemas whose encoding can be empty (array of null) legitimately decode a huge declared count from a few bytes; such inputs are offered but counts above 2^31 on zero-size items are outside the proportionality claim (recorded interpretation)",
